@@ -7,13 +7,14 @@
     raises, terminates within its fuel hints, and returns exactly the regex text of `Wild.translateText`
     (for every string and both values of `case_sensitive`; `str.lower` in its ASCII model).
   * `match`/`imatch`/`match_any`/`imatch_any`/`get_matcher` (modulo the LRU cache, see puregen.py): equal to
-    the hand model *through the text and the model of Python's parser* (`wmatchViaText`); the hand model
-    `Wild.wmatch` builds the AST directly, and `parse text = AST` is the `<parse-eq>` column of the C14
-    correspondence (validated on every run, not proved) — `match_eq_wmatch` states the consequence.
+    the hand model `Wild.wmatch` / `Wild.matchAny` / `Wild.getMatcher` (`match_eq_wmatch`, …): first through the
+    text and the model of Python's parser (`wmatchViaText`), then by `RegexRoundTrip.wildcard_text_parses`
+    (parse of the emitted text = the AST the hand matchers use, proved for every pattern).
   Results of generated code are `Res`; `toTR` (FsModel/PyRe.lean) maps them to the `TR` of the hand model.
 -/
 import FsModel.Generated.WildGen
 import FsProofs.Lemmas.WildGenLemmas
+import FsProofs.RegexRoundTrip
 
 namespace Fs.WildGenEq
 open Fs Fs.PyStr Fs.PyRe Fs.PyStrLemmas Fs.PathGenLemmas Fs.WildGenLemmas
@@ -158,16 +159,29 @@ theorem get_matcher_eq (ps : List Str) (cs : Bool) (n : Str) :
     | true => simpa using match_any_eq ps n
     | false => simpa using imatch_any_eq ps n
 
-/-! ### under the validated parser/printer correspondence, against the AST model -/
+/-! ### against the AST model, unconditionally
 
-theorem wmatchViaText_eq_wmatch (p n : Str) (cs : Bool)
-    (hparse : Regex.parse (Wild.regexText p cs) (!cs) = Wild.compile p cs) :
-    wmatchViaText p n cs = Wild.wmatch p n cs := by
-  simp [wmatchViaText, Wild.wmatch, hparse]
+`FsProofs/RegexRoundTrip.wildcard_text_parses` proves that parsing the emitted text gives the hand model's AST
+(formerly the validated hypothesis `<parse-eq>`), so the generated matchers ARE the hand matchers of C14. -/
 
-theorem match_eq_wmatch (p n : Str)
-    (hparse : Regex.parse (Wild.regexText p true) false = Wild.compile p true) :
-    toTR (WildGen.match p n) = Wild.wmatch p n true := by
-  rw [match_eq]; exact wmatchViaText_eq_wmatch p n true hparse
+theorem match_eq_wmatch (p n : Str) : toTR (WildGen.match p n) = Wild.wmatch p n true := by
+  rw [match_eq, RegexRoundTrip.wmatchViaText_eq]
+
+theorem imatch_eq_wmatch (p n : Str) : toTR (WildGen.imatch p n) = Wild.wmatch p n false := by
+  rw [imatch_eq, RegexRoundTrip.wmatchViaText_eq]
+
+theorem match_any_eq_matchAny (ps : List Str) (n : Str) :
+    toTR (WildGen.match_any ps n) = Wild.matchAny ps n true := by
+  rw [match_any_eq, RegexRoundTrip.matchAnyViaText_eq]
+
+theorem imatch_any_eq_matchAny (ps : List Str) (n : Str) :
+    toTR (WildGen.imatch_any ps n) = Wild.matchAny ps n false := by
+  rw [imatch_any_eq, RegexRoundTrip.matchAnyViaText_eq]
+
+/-- the callable `get_matcher` returns is `Wild.getMatcher` -/
+theorem get_matcher_eq_getMatcher (ps : List Str) (cs : Bool) (n : Str) :
+    toTR (WildGen.get_matcher ps cs n) = Wild.getMatcher ps cs n := by
+  rw [get_matcher_eq, RegexRoundTrip.matchAnyViaText_eq]
+  rfl
 
 end Fs.WildGenEq
